@@ -151,7 +151,7 @@ class SymtableCodeGen(AbstractCodeGen):
 
         for module in sorted(imports):
             symbols = ()
-            for symbol in set(imports[module]):
+            for symbol in sorted(set(imports[module])):
                 symbols += self.symTrans(symbol)
 
             if symbols:
